@@ -22,8 +22,8 @@ sock_read = Unit(
               rules=[WIN, (r'::read\(_handle, \(char\*\)data, size\)', 'OS_READ((char*)data, size)', 1), do_while_rule],
               loops=[(r'while \(vf_first', 0, '''
   __CPROVER_assigns(vf_first, data, s, size, g_sofar, g_calls, self->_error)
-  __CPROVER_loop_invariant((vf_first ? s == 0 : (0 < s)) && s <= size0 && (vf_first == 0 || vf_first == 1) && s == g_sofar && size == size0 - s && __CPROVER_same_object(data, g_base) && DOFF(data, g_base) == s && g_ok && self->_blocking && 0 <= g_calls && g_calls <= s + 1)
-  __CPROVER_decreases(size0 - s + vf_first)
+  __CPROVER_loop_invariant((vf_first ? s == 0 : (0 < s)) && s <= g_total && (vf_first == 0 || vf_first == 1) && s == g_sofar && size == g_total - s && __CPROVER_same_object(data, g_base) && DOFF(data, g_base) == s && g_ok && self->_blocking && 0 <= g_calls && g_calls <= s + 1)
+  __CPROVER_decreases(g_total - s + vf_first)
 ''')])],
     text=PRE + r'''
 /* ::read(fd, p, n): n > 0; returns -1 (error), 0 (end of stream) or 1..n bytes stored at p.  The stub checks WHERE the library asks the OS to store them. */
@@ -52,8 +52,8 @@ sock_write = Unit(
               rules=[WIN, (r'::send\(_handle, data, size, MSG_NOSIGNAL\)', 'OS_SEND((const char*)data, size)', 1), do_while_rule],
               loops=[(r'while \(vf_first', 0, '''
   __CPROVER_assigns(vf_first, data, s, size, g_sofar, g_calls, self->_error)
-  __CPROVER_loop_invariant((vf_first ? s == 0 : (0 < s)) && s <= size0 && (vf_first == 0 || vf_first == 1) && s == g_sofar && size == size0 - s && __CPROVER_same_object(data, g_base) && DOFF(data, g_base) == s && g_ok && self->_blocking && 0 <= g_calls && g_calls <= s + 1)
-  __CPROVER_decreases(size0 - s + vf_first)
+  __CPROVER_loop_invariant((vf_first ? s == 0 : (0 < s)) && s <= g_total && (vf_first == 0 || vf_first == 1) && s == g_sofar && size == g_total - s && __CPROVER_same_object(data, g_base) && DOFF(data, g_base) == s && g_ok && self->_blocking && 0 <= g_calls && g_calls <= s + 1)
+  __CPROVER_decreases(g_total - s + vf_first)
 ''')])],
     text=PRE + r'''
 /* ::send(fd, p, n, flags) with n > 0 on a blocking stream socket: -1 (error) or 1..n bytes taken from p */
